@@ -155,7 +155,25 @@ def arm_rejects(body):
     return False
 
 
-def check_visitor(db, rep, rule, visitor_id, enum_path, children, walk_fns, require_explicit=()):
+def _visited_names(body, pat):
+    """names that flow into a call matching `pat` (directly as an argument / receiver, or as the iterable of a `for` loop /
+    iterator chain whose body contains such a call)"""
+    import re as _re
+    rx = _re.compile(pat)
+    out = set()
+    for n in hir_walk(body):
+        if n.get("k") in ("Call", "MCall") and rx.search(n.get("f") or ""):
+            out |= names_used(n)
+        elif n.get("k") == "Match" and n.get("src") == "ForLoopDesugar":
+            if any(x.get("k") in ("Call", "MCall") and rx.search(x.get("f") or "") for x in hir_walk(n)):
+                out |= names_used(n["s"])
+        elif n.get("k") == "MCall" and n.get("m") in ("for_each", "map", "try_for_each", "any", "all"):
+            if any(x.get("k") in ("Call", "MCall") and rx.search(x.get("f") or "") for a in n.get("a", []) for x in hir_walk(a)):
+                out |= names_used(n["r"])
+    return out
+
+
+def check_visitor(db, rep, rule, visitor_id, enum_path, children, walk_fns, require_explicit=(), visit_call_pat=None):
     """check one override.  walk_fns: resolved paths that count as delegation on the node"""
     f = db.fn(visitor_id)
     rep.fn(f)
@@ -174,6 +192,8 @@ def check_visitor(db, rep, rule, visitor_id, enum_path, children, walk_fns, requ
         for arm in m["arms"]:
             body = arm["b"]
             used = names_used(body) | (names_used(arm["g"]) if "g" in arm else set())
+            if visit_call_pat:
+                used = _visited_names(body, visit_call_pat)
             delegates = any(n.get("k") in ("Call", "MCall") and n.get("f") in walk_fns for n in hir_walk(body))
             never = bool(body.get("never"))
             rejects = arm_rejects(body)
@@ -227,3 +247,38 @@ def check_visitor(db, rep, rule, visitor_id, enum_path, children, walk_fns, requ
                 else:
                     rep.ok(rule, key, loc, "arm uses every child field %s" % kids)
     return n_inst
+
+
+EXPR_VISITOR_EXCEPTIONS = {
+    "<passes::unused_labels::get_label_refcounts::Visitor as ast::ref_::Visit>::visit_expr":
+        "counts label references: matches LabelProperty and falls back to walk_expr for every other variant (wildcard arm delegates)",
+    "<passes::desugar_blocks::<impl ast::Stmt>::get_loop_id::GetStmtLoopIdVisitor as ast::ref_::Visit>::visit_expr":
+        "deliberate stub: the probe must not look into children (C06 R-BREAK-GOTO)",
+    "<passes::type_check::Visitor<'_, '_> as ast::ref_::Visit>::visit_expr":
+        "hands the whole expression to ExprTypeChecker::check_expr, whose own traversal is decided by C09 R-EXPR-TABLES / R-MUSTCALL",
+}
+
+
+def check_all_expr_visitors(db, rep, rule, only_prefix=None):
+    """every hand-written `visit_expr` override (Visit / VisitMut) either delegates to walk_expr or visits all children of the
+    variants it matches; audited exceptions are listed above with their reason"""
+    ch = walker_children(db, "ast::ref_::walk_expr", "ast::Expr")
+    n = 0
+    for f in sorted(db.fns.values(), key=lambda f: (f.file, f.line)):
+        if f.gen or not (f.id.endswith("ast::ref_::Visit>::visit_expr") or f.id.endswith("ast::mut_::VisitMut>::visit_expr")):
+            continue
+        if only_prefix and not any(p in f.id for p in only_prefix):
+            continue
+        if f.id in EXPR_VISITOR_EXCEPTIONS:
+            rep.ok(rule, "%s|audited" % f.id, f.loc, "audited: " + EXPR_VISITOR_EXCEPTIONS[f.id])
+            continue
+        n += 1
+        walks = {"ast::ref_::walk_expr", "ast::mut_::walk_expr"}
+        body = f.hir
+        top = [st.get("e") for st in (body.get("ss") or []) if st.get("k") in ("Semi", "Expr")] + ([body["e"]] if isinstance(body.get("e"), dict) else [])
+        if any(isinstance(e, dict) and e.get("k") == "Call" and e.get("f") in walks for e in top):
+            rep.fn(f)
+            rep.ok(rule, "%s|walks unconditionally" % f.id, f.loc, "the override calls walk_expr on every path (as a top-level statement of its body)")
+            continue
+        check_visitor(db, rep, rule, f.id, "ast::Expr", ch, walks, visit_call_pat=r"::(visit_|walk_)")
+    return n
